@@ -125,14 +125,20 @@ def _raises_typeerror_guard_before_copy(fn: ast.FunctionDef, param: str) -> bool
     return True
 
 
-def _dtype_catches() -> list:
-    """Exception classes turned into TypeError around `np_dtype_to_tensor_dtype` in _utils.py."""
+def _dtype_catches(callee: str = "np_dtype_to_tensor_dtype") -> list:
+    """Exception classes turned into TypeError around the call of `callee` in dtype_to_tensor_type."""
     mod = parse("src/spox/_utils.py")
     out = []
     for fn in mod.body:
         if isinstance(fn, ast.FunctionDef) and fn.name == "dtype_to_tensor_type":
             for node in ast.walk(fn):
                 if isinstance(node, ast.Try):
+                    calls = {
+                        (c.func.attr if isinstance(c.func, ast.Attribute) else getattr(c.func, "id", None))
+                        for st in node.body for c in ast.walk(st) if isinstance(c, ast.Call)
+                    }
+                    if callee not in calls:
+                        continue
                     for h in node.handlers:
                         reraises_type = any(
                             isinstance(s, ast.Raise)
@@ -196,6 +202,7 @@ def attr_kinds() -> dict:
         "tensor_guard": tensor_guard,
         "validate_catch_all": catch_all,
         "dtype_catches": _dtype_catches(),
+        "dtype_spec_catches": _dtype_catches("dtype"),
     }
 
 
@@ -232,6 +239,9 @@ def emit_attr_kinds(info: dict) -> str:
         "",
         "/-- exception classes `dtype_to_tensor_type` turns into TypeError around onnx's table lookup (AST) -/",
         f"def dtypeCatches : List String := {lean_list([lean_str(x) for x in info['dtype_catches']])}",
+        "",
+        "/-- … and around `np.dtype(dtype_like)` itself (malformed specifications such as `(int, -1)`) (AST) -/",
+        f"def dtypeSpecCatches : List String := {lean_list([lean_str(x) for x in info['dtype_spec_catches']])}",
         "",
         "end Generated.AttrKinds",
         "",
